@@ -21,7 +21,7 @@ VALUES = {
     'number': [D('12.50'), D('-3')], 'number_per': [D('2')], 'number_total': [D('20')], 'tolerance': [D('0.01')], 'booking': ['STRICT'],
     'comment': ['he said "hi"\\'], 'narration': ['narr "q"'], 'payee': ['payee'], 'description': ['desc'], 'name': ['name'], 'query_string': ['SELECT 1'],
     'type': ['budget'], 'filename': ['/a b.pdf'], 'config': ['cfg'], 'key': ['title'], 'value': ['val'], 'tag': ['trip'], 'tags': [[], ['t1', 't2']], 'links': [[], ['l1']],
-    'leading_comment': ['lead', 'a\n \nb'], 'trailing_comment': ['trail', 'x\n\t\ny'], 'inline_comment': ['inline'], 'flag': ['*', '!'], 'indent_by': ['    ', '\t'],
+    'leading_comment': ['lead', 'a\n \nb'], 'trailing_comment': ['trail', 'x\n\t\ny'], 'inline_comment': ['inline', 'to do ', 'aligned\t'], 'flag': ['*', '!'], 'indent_by': ['    ', '\t'],
     'meta': [{}, {'aa': 'v', 'bb': D('1.5'), 'cc': datetime.date(2000, 1, 1)}], 'postings': [[posting(0), posting(1)]], 'label': ['lbl'], 'merge': [True, False],
     'values': [[], [D('1'), D('-2'), 'Assets:Foo', True, 's'], [D('10'), D('-2'), D('-3')], [D('1'), D('-2'), models.Amount.from_value(D('-3'), 'USD')]], 'amount': None, 'indent': ['    '], 'cost': None, 'price': None, 'total_price': None, 'unit_price': None,
     'inner_expr': None, 'operand': None, 'unary_op': ['-'], 'components': None, 'directives': None,
